@@ -2,6 +2,7 @@
 line. Imports only core Lean + the model (no Mathlib), so it links as a native executable. -/
 import Driver.Exec
 import Driver.Hash
+import Driver.Lex
 open Lean
 
 def dispatch (j : Json) : Json :=
@@ -10,6 +11,7 @@ def dispatch (j : Json) : Json :=
   | "exec" => Driver.handleExec j
   | "hash.validate" => Driver.handleHashValidate j
   | "hash.sum" => Driver.handleHashSum j
+  | "lex.scan" => Driver.handleLexScan j
   | "h1" => Json.mkObj [("h", Atlas.Base.h1 (Driver.unhex (Driver.str j "hex")))]
   | op => Json.mkObj [("err", s!"unknown-op:{op}")]
 
